@@ -15,10 +15,14 @@ ASSUMPTIONS = [
     "the two differ in the last bit when x*x is not representable (|x| > 4096) — modelled per profile, and outside the theorems' size condition",
     "size side-conditions of the theorems: ndim * (e-1)^2 < 2^24 (float exactness), e^(ndim-1) < 2^64 (checked_pow succeeds), ntotal <= 2^31 (`i as i32`), with e the integer root",
     "index == ntotal is accepted by the guard (`>`), negative / NaN radius and ndim = 0 / ntotal = 0 give None: outside the quantifier, both sides are still compared there",
+    "long 1-dimensional topologies (ntotal 46340 .. 70000, beyond the size condition): the release build is compared with the model and the geometric set; the debug build (libm powf per cell; "
+    "the model's oracle table is an association list) is judged by the geometric set only, the model is not run there (stream long-1d-debug-impl-only)",
     "ndim >= 65 with ntotal >= 2: find_neighbors returns None (checked_pow(64) overflows) — KnownClass 1, see known_findings.jsonl",
 ]
 
 TRUSTED_EXTRA = [
+    "checks/C20.py wraps vcheck._shard: find_neighbors cases with ndim 1 and ntotal >= 20000 run one per worker (implementation, model and checker)",
+    "Suites/STopology.v geo_nbrs_fast (index enumeration in Z) replaces the specification's geo_nbrs inside the wire checker; lemma geo_nbrs_fast_eq proves them equal",
     "Base/F32Flocq.v (Flocq binary32 instance of FloatOps, with the classical axioms of Coq's Reals) runs inside the extracted model and the wire checker only; no C20 theorem mentions it",
     "libm oracle: powf values in the case tables are computed by the harness binary itself (Rust std f32::powf), suite 'libm'",
 ]
